@@ -178,7 +178,7 @@ def m_rev(eng, callee, args):
     return PyIter(list(reversed(as_iter(args[0]).items())))
 
 
-@model(r"^<.* as Iterator>::cloned$|^<.* as Iterator>::copied$", "Iterator::cloned")
+@model(r"^<.* as Iterator>::cloned(::<.*>)?$|^<.* as Iterator>::copied(::<.*>)?$", "Iterator::cloned")
 def m_cloned(eng, callee, args):
     a = as_iter(args[0])
     return PyIter((clone_val(deref(x)) for x in a.gen))
@@ -733,3 +733,15 @@ def m_int_minmax(eng, callee, args):
             return max(v[1], min(v[2], v[0]))
         return min(v) if "min" in callee.rsplit("::", 1)[1] or "::min::" in callee else max(v)
     return m_usize_max(eng, callee, args)
+
+
+@model(r"^rng$|^rand::rng$|^rand::rngs::thread::rng$", "rand::rng(): the thread-local generator (opaque)")
+def m_thread_rng(eng, callee, args):
+    return Struct("ThreadRng", [], [])
+
+
+@model(r"^<ThreadRng as rand::Rng>::random::<u64>$|^<rand::rngs::ThreadRng as rand::Rng>::random::<u64>$", "ThreadRng::random::<u64>(): arbitrary 64-bit value")
+def m_thread_rng_u64(eng, callee, args):
+    x = eng.ctx.fresh_int("thread_rng_u64")
+    eng.ctx.assume(z3.And(x >= 0, x <= 2 ** 64 - 1))
+    return x
